@@ -120,7 +120,9 @@ def exprHasRule : Expr → Bool
   | _ => true
 
 /-- `gradient(expr, wrt)`: registered rule, else depth switch between the explicit-stack
-    and the recursive (`_gradient_cached`, = `Py.grad`) differentiator -/
+    and the recursive (`_gradient_cached`, = `Py.grad`) differentiator.  The source wraps the recursive
+    call in `try … except RecursionError: return _gradient_iterative(expr, wrt)`: a CPython stack overflow
+    (not modelled) is answered by the other arm, which computes the same expression (`C15.gradIter_eq`). -/
 def gradient (thr : Nat) (wrt : Var) (e : Expr) : Except CErr Expr :=
   if exprHasRule e then .ok (grad wrt e)
   else if depthG e ≥ thr then gradIter (2 * skel e) wrt (label 0 e)
